@@ -27,7 +27,7 @@ PIPE = {
     "C06": dict(clauses=["C06_"], sims=[("Sim_rollback", 100, 1000, 170)], mc=[("MC_c06", 900, "both")], data=True),
     "C07": dict(clauses=["C07_"], sims=[("Sim_crash", 80, 800, 150), ("Sim_multi_crash", 40, 400, 170)], mc=[("MC_c07", 900, "both")], crashpoints=True),
     "C08": dict(clauses=["C08_"], sims=[("Sim_client", 90, 900, 150), ("Sim_base", 30, 300, 150), ("Sim_dev", 30, 300, 150), ("Sim_rollback", 20, 200, 170)], mc=[("MC_c08", 900, "both")]),
-    "C09": dict(clauses=["C09_"], sims=[("Sim_base", 80, 800, 150), ("Sim_dev", 40, 400, 150), ("Sim_multi", 30, 300, 170)], mc=[("MC_c09", 900, "both")]),
+    "C09": dict(clauses=["C09_"], sims=[("Sim_base", 60, 800, 150), ("Sim_dev", 40, 400, 150), ("Sim_multi", 30, 300, 170), ("Sim_rbconn", 40, 400, 170)], mc=[("MC_c09", 900, "both"), ("MC_c09r", 900, "both")]),
     "C10": dict(clauses=["C10_"], sims=[("Sim_conn", 100, 1000, 150)], mc=[("MC_c10", 900, "both")]),
     "C11": dict(clauses=["C11_"], sims=[("Sim_dev", 100, 1000, 150), ("Sim_multi", 20, 200, 170)], mc=[("MC_c11", 900, "both")], crashpoints=True),
 }
@@ -299,12 +299,16 @@ def check(prop, tier, replay_file=None):
                 s = normalise(b, "regress-" + name, sd)
                 scenarios.append(s)
                 origin[s["name"]] = "regress"
-            if conf.get("crashpoints"):
-                scenarios += crashpoint_variants(scenarios, origin, tier, sd)
         # 3. replay on the real code
         tracedir = sc.mkdir("traces")
         infra = replay(bins, scenarios, tracedir)
         names = [s["name"] for s in scenarios if os.path.exists(os.path.join(tracedir, s["name"] + ".ndjson"))]
+        if conf.get("crashpoints") and not replay_file:
+            # crash points of REALISED executions: every persisted effect of every reconcile of the base runs
+            vs = crashpoint_variants(scenarios, origin, tier, sd, tracedir)
+            infra += replay(bins, vs, tracedir)
+            scenarios += vs
+            names += [s["name"] for s in vs if os.path.exists(os.path.join(tracedir, s["name"] + ".ndjson"))]
         bad_infra = [l for l in infra]
         if bad_infra:
             raise vlib.Inconclusive("infrastructure failures during replay:\n" + "\n".join(bad_infra[:10]))
@@ -479,44 +483,56 @@ def clause_names(specdir):
     return sorted(set(names))
 
 
-def crashpoint_variants(scenarios, origin, tier, sd):
-    """Real-code crash-point enumeration: for crash-free behaviours, re-run with a crash injected
-      - after the k-th scheduler step (between reconciles), and
-      - INSIDE the k-th reconcile, after its j-th persisted effect (the reconcile is begun in fine mode, j effects
-        are released, the process is killed, restarted, and the rest of the schedule follows),
-    for a seeded sample (quick) or a large sample (thorough)."""
+def crashpoint_variants(scenarios, origin, tier, sd, tracedir):
+    """Real-code crash-point enumeration.  A crash-free base behaviour has been replayed; its recorded trace lists
+    every step that was actually executed (including the picks of the drains) and the persisted effects of each.
+    For every reconcile step k of that realised execution and every j < (its number of effects) a variant is built:
+    the realised steps before k, then the k-th reconcile begun in fine mode, j of its effects released, the process
+    killed and restarted, and the usual epilogue (drain to quiescence, heal, probe).  j = all effects is the crash
+    between two reconciles.  Quick: a seeded sample of bases and points; thorough: every point of many bases."""
     rnd = random.Random(sd)
     out = []
-    base = [s for s in scenarios if not any(st["k"] in ("crash", "begin") for st in s["steps"])]
-    rnd.shuffle(base)
-    base = base[: (8 if tier == "quick" else 60)]
+    base = [s for s in scenarios if not any(st["k"] in ("crash", "begin") for st in s["steps"])
+            and os.path.exists(os.path.join(tracedir, s["name"] + ".ndjson"))]
+    # behaviours that do the most are the most useful bases; the committed life-cycle regressions come first
+    def weight(s):
+        return (0 if origin.get(s["name"]) == "regress" else 1, -sum(1 for st in s["steps"] if st["k"] in ("set", "rollback", "connup")), s["name"])
+    base.sort(key=weight)
+    head, tail = base[:3], base[3:]
+    rnd.shuffle(tail)
+    base = head + tail[: (2 if tier == "quick" else 40)]
+    budget = 100 if tier == "quick" else 6000
 
     def actor(st):
         if st["c"] == "prop":
             return "prop:" + st["id"].rsplit("-", 1)[0]
         return st["c"]
+    points = []
     for s in base:
-        body = s["steps"][:-len(EPILOGUE)]
-        rest = lambda k: [st for st in body[k:] if st["k"] not in ("crash", "restart")]
-        ks = list(range(2, len(body)))
-        runs = [k for k in ks if body[k]["k"] == "run" and body[k].get("c") in ("prop", "tx", "cfg", "mast")]
-        props = [k for k in runs if body[k]["c"] == "prop"]
-        if tier == "quick":
-            ks = rnd.sample(ks, min(4, len(ks)))
-            runs = rnd.sample(props, min(5, len(props))) + rnd.sample(runs, min(2, len(runs)))
+        lines = [json.loads(x) for x in open(os.path.join(tracedir, s["name"] + ".ndjson"))]
+        real = []   # realised steps, with the number of effects each had
+        for L in lines[1:]:
+            a = L["act"]
+            if not L["done"] or a["k"] in ("drain", "observe", "probe", "force", "heal"):
+                continue
+            st = {k: v for k, v in a.items() if v not in ("", 0, False, None, {}) and k != "auto"}
+            real.append((st, len(L.get("effects") or [])))
+            if a["k"] == "probe":
+                break
+        # stop at the first epilogue drain: what the base did before it was healed
+        for k, (st, n) in enumerate(real):
+            if st["k"] == "run" and st.get("c") in ("tx", "prop", "cfg", "mast"):
+                for j in range(1, n + 1):
+                    points.append((s, real, k, j, n))
+    rnd.shuffle(points)
+    for s, real, k, j, n in points[:budget]:
+        st = real[k][0]
+        pre = [x for x, _ in real[:k]]
+        if j == n:
+            mid = [st, {"k": "crash"}, {"k": "restart"}]
         else:
-            runs = rnd.sample(props, min(30, len(props))) + rnd.sample(runs, min(10, len(runs)))
-        for k in ks:
-            steps = body[:k] + [{"k": "crash"}, {"k": "restart"}] + rest(k) + EPILOGUE
-            v = dict(s, name="%s-crash%03d" % (s["name"], k), steps=steps, seed=sd * 1000 + k)
-            out.append(v)
-            origin[v["name"]] = "crashpoint"
-        for k in sorted(set(runs)):
-            st = body[k]
-            for j in ((1, 2) if tier == "quick" else (1, 2, 3)):
-                steps = (body[:k] + [{"k": "begin", "c": st["c"], "id": st["id"]}] + [{"k": "exec", "a": actor(st)}] * j +
-                         [{"k": "crash"}, {"k": "restart"}] + rest(k + 1) + EPILOGUE)
-                v = dict(s, name="%s-crash%03de%d" % (s["name"], k, j), steps=steps, seed=sd * 1000 + k * 10 + j)
-                out.append(v)
-                origin[v["name"]] = "crashpoint-effect"
+            mid = [{"k": "begin", "c": st["c"], "id": st["id"]}] + [{"k": "exec", "a": actor(st)}] * j + [{"k": "crash"}, {"k": "restart"}]
+        v = dict(s, name="%s-x%03d-%d" % (s["name"], k, j), steps=pre + mid + EPILOGUE, seed=s["seed"] * 131 + k * 7 + j)
+        out.append(v)
+        origin[v["name"]] = "crashpoint"
     return out
